@@ -40,6 +40,7 @@ type Frame struct {
 	unsup    bool
 	rangeIt  map[ssa.Value]*rangeState
 	curBlock *ssa.BasicBlock
+	closures []*Val // closures created in this frame (candidates for calls of function values)
 }
 
 type loopInfo struct {
@@ -612,6 +613,12 @@ func (fr *Frame) execInstr(in ssa.Instruction, st *State, reach *Term) (terminat
 		case *types.Slice:
 			c.addObl(fr, &Obligation{Kind: "safety", Site: fmt.Sprintf("index@%s", fr.posShort(i.Pos())), Clause: "slice index in range",
 				Guard: reach, Goal: mk(SBool, "(and (<= 0 %s) (< %s (slen %s)))", idx.T.S, idx.T.S, x.T.S)})
+			if x.ArrRef != nil {
+				// the slice covers a local array completely: element access goes to the array's memory
+				k, _, _ := c.arrKey(x.ArrT)
+				fr.setVal(i, &Val{Typ: i.Type(), Loc: &Loc{Kind: "arrelem", Key: k, Base: x.ArrRef, Idx: idx.T, Typ: xt.Elem()}})
+				break
+			}
 			fr.setVal(i, &Val{Typ: i.Type(), Loc: &Loc{Kind: "slelem", Base: x.T, Idx: idx.T, Typ: xt.Elem()}})
 		case *types.Pointer:
 			at := xt.Elem().Underlying().(*types.Array)
@@ -688,6 +695,7 @@ func (fr *Frame) execInstr(in ssa.Instruction, st *State, reach *Term) (terminat
 			clo.Bind = append(clo.Bind, fr.val(b))
 		}
 		fr.setVal(i, &Val{T: r, Typ: i.Type(), Clo: clo})
+		fr.closures = append(fr.closures, fr.vals[i])
 	case *ssa.Slice:
 		fr.execSlice(i, st, reach)
 	case *ssa.Range:
@@ -1088,7 +1096,12 @@ func (fr *Frame) execSlice(i *ssa.Slice, st *State, reach *Term) {
 		v := c.arraySnapshot(st, x.T, arr)
 		a := arr.Underlying().(*types.Array)
 		if i.Low == nil && i.High == nil {
-			fr.setVal(i, &Val{T: v.T, Typ: i.Type()})
+			out := &Val{T: v.T, Typ: i.Type()}
+			if _, isAlloc := i.X.(*ssa.Alloc); isAlloc {
+				out.ArrRef = x.T
+				out.ArrT = arr
+			}
+			fr.setVal(i, out)
 			return
 		}
 		if i.High != nil {
